@@ -3,7 +3,8 @@
 payload: {"cases": [[[x,y,z], ...k points...], ...]}  (floats; k in 1..4)
 result : {"results": [{"jolt": {...}, "orig": {...}}, ...]}
 
-Jolt   : get_closest_point_to_origin(Y, n, inf) -> success, v, v_len_sq, bit set
+Jolt   : get_closest_point_to_origin(Y, n, inf) -> success, v, v_len_sq, bit set; and the same call
+         with prev_v_len_sqr = the returned v_len_sq / its successor (must fail / succeed)
 Original: distance_subalgorithm_with_backup_procedure(simplex, Solution(), True); the
           simplex is built through the public API the GJK loop itself uses
           (set_first_point / add_new_point), fed in the order that makes
@@ -34,6 +35,11 @@ def run_jolt(pts):
     out = dict(success=bool(ok), y_unchanged=bool(np.array_equal(Y, Y0)))
     if ok:
         out.update(v=hx(v), v_len_sq=float(vlen).hex(), bits=int(simplex))
+        # the only other branch of the function: "v_len_sq < prev_v_len_sqr" with a finite bound
+        vl = float(vlen)
+        ok_eq = J.get_closest_point_to_origin(Y0.copy(), k, vl)[0]
+        ok_next = J.get_closest_point_to_origin(Y0.copy(), k, float(np.nextafter(vl, np.inf)))[0]
+        out.update(ok_prev_equal=bool(ok_eq), ok_prev_next=bool(ok_next))
     return out
 
 
